@@ -32,8 +32,9 @@ const (
 )
 
 const (
-	relQuit  = -2
-	paceStop = math.MinInt64
+	relQuit          = -2
+	paceStop         = math.MinInt64
+	paceStopWithWait = math.MinInt64 + 1
 )
 
 func init() {
@@ -202,6 +203,9 @@ func (p *simPacer) Pace(el time.Duration, hits uint64) (time.Duration, bool) {
 	}
 	if v == paceStop {
 		return 0, true
+	}
+	if v == paceStopWithWait {
+		return time.Second, true
 	}
 	return time.Duration(v), false
 }
